@@ -219,6 +219,37 @@ pub fn grounded_local(acs: &[F]) -> (Interp, usize) {
     }
 }
 
+/// Two-valued models of an ADF with up to ~14 statements, by evaluating every acceptance condition under every
+/// total assignment (no truth tables).
+pub fn two_valued_wide(acs: &[F]) -> Vec<Interp> {
+    let n = acs.len();
+    assert!(n <= 16);
+    let mut res = Vec::new();
+    for a in 0..(1u64 << n) {
+        if (0..n).all(|s| acs[s].eval_bits(a) == ((a >> s) & 1 == 1)) {
+            res.push((0..n).map(|s| if (a >> s) & 1 == 1 { Tv::T } else { Tv::F }).collect());
+        }
+    }
+    res.sort();
+    res
+}
+
+/// Stable models by the definition of C03 for ADFs with up to ~14 statements and small supports: the reduct is
+/// formed by substitution, its grounded interpretation by the local three-valued evaluation.
+pub fn stable_wide(acs: &[F]) -> (Vec<Interp>, Vec<Interp>) {
+    let two = two_valued_wide(acs);
+    let mut res = Vec::new();
+    for v in &two {
+        let reduct: Vec<F> = acs.iter().map(|f| f.subst(&|i| if v[i] == Tv::F { Some(false) } else { None })).collect();
+        let (g, _) = grounded_local(&reduct);
+        if (0..acs.len()).all(|s| v[s] != Tv::T || g[s] == Tv::T) {
+            res.push(v.clone());
+        }
+    }
+    res.sort();
+    (res, two)
+}
+
 #[cfg(test)]
 mod test {
     use super::*;
@@ -237,5 +268,7 @@ mod test {
         assert_eq!(show_set(&o.complete()), "{TTFF,TTFT,TTFu}");
         assert_eq!(show_set(&stable(&acs)), "{TTFF}");
         assert_eq!(show_set(&o.two_valued()), "{TTFF,TTFT}");
+        assert_eq!(show_set(&stable_wide(&acs).0), "{TTFF}");
+        assert_eq!(show_set(&stable_wide(&acs).1), "{TTFF,TTFT}");
     }
 }
